@@ -198,12 +198,18 @@ def num_chains(a, b):
 
 
 # ---------------------------------------------------------------- family D: list builtins vs prefix rendering
-LIST_OPS = ["zip", "++", "**", "til", "to", "fold", "scan", "+", ".+", "lazy_zip"]
-CHAIN_TABLE = {"zip": {"zip", "with"}, "lazy_zip": {"lazy_zip", "with"}, "**": {"**"}, "til": {"by"}, "to": {"by"},
-               "fold": {"from"}, "scan": {"from"}}
+LIST_OPS = ["zip", "++", "**", "til", "to", "fold", "scan", "+", ".+", "lazy_zip", "ziplongest", "merge", "replace", "&&&", "***", "equals"]
+# every builtin whose try_chain accepts a follower (src/lib.rs): the follower names it merges with
+CHAIN_TABLE = {"zip": {"zip", "with"}, "lazy_zip": {"lazy_zip", "with"}, "ziplongest": {"ziplongest", "with"}, "**": {"**"}, "til": {"by"}, "to": {"by"},
+               "fold": {"from"}, "scan": {"from"}, "merge": {"merge", "with"}, "replace": {"with"}, "&&&": {"&&&"}, "***": {"***"}, "equals": {"equals"}}
 LIST_ALL = LIST_OPS + ["with", "by", "from"]
-OPERAND_PATTERNS = [["[1, 2]", "[3, 4]", "[5, 6]", "[7, 8]"], ["1", "7", "2", "3"], ["[1, 2, 3]", "(+)", "10", "[4]"],
-                    ["[1, 2]", "[3, 4]", "(+)", "[5]"], ["1", "9", "3", "(+)"], ["[[1], [2]]", "(++)", "[0]", "[9]"]]
+# (operands, wrapper): the wrapper applies a chain that builds a function, so that an n-ary merge is told from nested pairs
+OPERAND_PATTERNS = [(["[1, 2]", "[3, 4]", "[5, 6]", "[7, 8]"], "%s"), (["1", "7", "2", "3"], "%s"), (["[1, 2, 3]", "(+)", "10", "[4]"], "%s"),
+                    (["[1, 2]", "[3, 4]", "(+)", "[5]"], "%s"), (["1", "9", "3", "(+)"], "%s"), (["[[1], [2]]", "(++)", "[0]", "[9]"], "%s"),
+                    (["(_ + 1)", "(_ * 2)", "(_ - 3)", "(_ * 5)"], "(%s)(10)"), (["(_ + 1)", "(_ * 2)", "(_ - 3)", "(_ * 5)"], "(%s)([1, 2, 3])"),
+                    (["(_ + 1)", "(_ * 2)", "(_ - 3)", "(_ * 5)"], "(%s)([1, 2])"),
+                    (['"abcab"', '"b"', '"x"', '"a"'], "%s"), (["{1: 2}", "{1: 3}", "(+)", "{1: 1}"], "%s"),
+                    (["{1: 2}", "{1: 3}", "{1: 10}", "(+)"], "%s")]     # one key per dict: iteration order of a larger dict is not fixed
 
 
 def list_chains(a, b):
@@ -313,11 +319,11 @@ def cases(tier, shard, nshards):
                 continue
             if not mine():
                 continue
-            for pat in OPERAND_PATTERNS:
+            for pat, wrap in OPERAND_PATTERNS:
                 opd = pat[:n + 1]
                 infix = " ".join(opd[0] if i == 0 else "%s %s" % (seq[i - 1], opd[i]) for i in range(n + 1))
                 meta = {"fam": "D", "ops": list(seq), "operands": opd}
-                yield Case([infix, _d_prefix(meta)], meta, iso=True)
+                yield Case([wrap % infix, wrap % _d_prefix(meta)], meta, iso=True)
 
 
 def _d_prefix(m):
